@@ -95,6 +95,7 @@ def api_case(cid, v, src):
         c = dict(h["call"])
         for k in ("ph", "np", "ty"):
             c.pop(k, None)
+        c["sit"] = sorted(h["sit"])       # travels with the call (ignored by the harness) so that it survives shrinking
         ops.append(c)
     sits = sorted({s for h in hist for s in h["sit"]})
     return {"id": cid, "tpl": "std", "ops": ops, "src": src, "allowed": hist[-1]["allowed"], "sits": sits,
@@ -128,6 +129,9 @@ def blame(case, det):
     sql = op.get("sql")
     if sql is None:
         return op["k"] + (":" + op["api"] if "api" in op else "")
+    if case["src"].startswith("api"):
+        # the failing call and, from the spec's situation labels, whether it reads a stored marker-like value
+        return robust.first_keyword(sql) + ("@marker" if "read_of_marker_like_value" in op.get("sit", []) else "")
     fns = sorted({m.group(1).upper() for m in FN_CALL.finditer(sql)} - NOT_FN)
     return "+".join(fns[:4]) if fns else robust.first_keyword(sql)
 
@@ -225,8 +229,15 @@ def triage(chk, cands, counts_by_sig):
         res = robust.run_cases(cs, SETUP, jobs=len(cs), watchdog_ms=CONFIRM_MS, vmem_mb=VMEM_MB, tag="confirm")
         for (sig, (c, cls, det)), cc in zip(part, cs):
             k2, d2 = robust.classify(res[cc["id"]])
-            if k2 in c["allowed"]:
+            raw = signature(c, k2, d2) if k2 not in c["allowed"] else None
+            if raw is None:
                 unconfirmed.append(sig)
+            elif chk.findings.known(raw):
+                rep = {"signature": raw, "class": k2, "detail": d2, "ops": c["ops"] if len(json.dumps(c["ops"])) < 3000 else "(long)", "tpl": c["tpl"],
+                       "src": c["src"], "allowed": c["allowed"], "first_seen_as": sig, "cases_with_this_signature_in_sweep": counts_by_sig[sig]}
+                confirmed.setdefault(raw, rep)
+                for _ in range(counts_by_sig[sig]):
+                    chk.classify(raw, rep)
             else:
                 work.append((sig, c, k2, d2))
     results = {}
